@@ -523,6 +523,132 @@ func C01(r *h.Run) {
 		}
 	}
 
+	// ---- 3d. a reader that skips messages: Receive, Receive, Msg — the message looked at is
+	// the one received last, also when it is zero-valued and the one skipped was not ----
+	for _, proto := range protos {
+		for _, side := range []string{"client reads a server stream", "handler reads a client stream"} {
+			for _, codec := range []string{"toy", "proto"} {
+				var copts []connect.ClientOption
+				switch proto {
+				case "grpc":
+					copts = append(copts, connect.WithGRPC())
+				case "grpcweb":
+					copts = append(copts, connect.WithGRPCWeb())
+				}
+				hopts := []connect.HandlerOption{connect.WithCompressMinBytes(1 << 20)}
+				copts = append(copts, connect.WithCompressMinBytes(1<<20))
+				seq := [][]byte{{7}, {}, {3, 3}, {}}
+				var looked [][]byte
+				var callErr error
+				var pnc any
+				if codec == "toy" {
+					copts = append(copts, connect.WithCodec(h.ToyCodec{}))
+					hopts = append(hopts, connect.WithCodec(h.ToyCodec{}))
+					mux := http.NewServeMux()
+					mux.Handle("/verif.Svc/Server", connect.NewServerStreamHandler("/verif.Svc/Server", func(_ context.Context, _ *connect.Request[h.Raw], st *connect.ServerStream[h.Raw]) error {
+						for _, m := range seq {
+							if err := st.Send(&h.Raw{B: m}); err != nil {
+								return err
+							}
+						}
+						return nil
+					}, hopts...))
+					mux.Handle("/verif.Svc/Client", connect.NewClientStreamHandler("/verif.Svc/Client", func(_ context.Context, st *connect.ClientStream[h.Raw]) (*connect.Response[h.Raw], error) {
+						for st.Receive() { // first of a pair: not looked at
+							if !st.Receive() {
+								break
+							}
+							looked = append(looked, append([]byte{}, st.Msg().B...))
+						}
+						return connect.NewResponse(&h.Raw{}), st.Err()
+					}, hopts...))
+					lc := &h.LocalClient{Handler: mux}
+					pnc = safely(func() {
+						if side == "client reads a server stream" {
+							st, err := connect.NewClient[h.Raw, h.Raw](lc, "http://verif.local/verif.Svc/Server", copts...).CallServerStream(context.Background(), connect.NewRequest(&h.Raw{B: []byte("q")}))
+							if err != nil {
+								callErr = err
+								return
+							}
+							for st.Receive() {
+								if !st.Receive() {
+									break
+								}
+								looked = append(looked, append([]byte{}, st.Msg().B...))
+							}
+							callErr = st.Err()
+							_ = st.Close()
+						} else {
+							st := connect.NewClient[h.Raw, h.Raw](lc, "http://verif.local/verif.Svc/Client", copts...).CallClientStream(context.Background())
+							for _, m := range seq {
+								_ = st.Send(&h.Raw{B: m})
+							}
+							_, callErr = st.CloseAndReceive()
+						}
+					})
+				} else {
+					mux := http.NewServeMux()
+					mux.Handle("/verif.Svc/Server", connect.NewServerStreamHandler("/verif.Svc/Server", func(_ context.Context, _ *connect.Request[wrapperspb.BytesValue], st *connect.ServerStream[wrapperspb.BytesValue]) error {
+						for _, m := range seq {
+							if err := st.Send(&wrapperspb.BytesValue{Value: m}); err != nil {
+								return err
+							}
+						}
+						return nil
+					}, hopts...))
+					mux.Handle("/verif.Svc/Client", connect.NewClientStreamHandler("/verif.Svc/Client", func(_ context.Context, st *connect.ClientStream[wrapperspb.BytesValue]) (*connect.Response[wrapperspb.BytesValue], error) {
+						for st.Receive() {
+							if !st.Receive() {
+								break
+							}
+							looked = append(looked, append([]byte{}, st.Msg().Value...))
+						}
+						return connect.NewResponse(&wrapperspb.BytesValue{}), st.Err()
+					}, hopts...))
+					lc := &h.LocalClient{Handler: mux}
+					pnc = safely(func() {
+						if side == "client reads a server stream" {
+							st, err := connect.NewClient[wrapperspb.BytesValue, wrapperspb.BytesValue](lc, "http://verif.local/verif.Svc/Server", copts...).CallServerStream(context.Background(), connect.NewRequest(&wrapperspb.BytesValue{}))
+							if err != nil {
+								callErr = err
+								return
+							}
+							for st.Receive() {
+								if !st.Receive() {
+									break
+								}
+								looked = append(looked, append([]byte{}, st.Msg().Value...))
+							}
+							callErr = st.Err()
+							_ = st.Close()
+						} else {
+							st := connect.NewClient[wrapperspb.BytesValue, wrapperspb.BytesValue](lc, "http://verif.local/verif.Svc/Client", copts...).CallClientStream(context.Background())
+							for _, m := range seq {
+								_ = st.Send(&wrapperspb.BytesValue{Value: m})
+							}
+							_, callErr = st.CloseAndReceive()
+						}
+					})
+				}
+				want := [][]byte{{}, {}} // the 2nd and the 4th
+				in := map[string]any{"proto": proto, "codec": codec, "side": side, "sent": hexList(seq), "reader": "Receive, Receive, Msg (twice)"}
+				r.Eval("skip_reading", fmt.Sprint(proto, side, codec))
+				r.Sample("skip_reading", map[string]any{"in": in, "looked_at": hexList(looked)})
+				if pnc != nil || callErr != nil {
+					r.Fail(h.Failure{Key: "roundtrip/panic-or-hang", Family: "skip_reading", What: fmt.Sprint("panic or failed call: ", pnc, callErr), Input: in})
+					continue
+				}
+				if !bytesListEq(looked, want) {
+					key := "roundtrip/response-direction"
+					if side != "client reads a server stream" {
+						key = "roundtrip/request-direction"
+					}
+					r.Fail(h.Failure{Key: key, Family: "skip_reading", What: "a reader that calls Receive twice before Msg is shown another message than the one received last (a zero-valued message after a skipped non-zero one)", Input: in, Expected: hexList(want), Actual: hexList(looked)})
+				}
+			}
+		}
+	}
+
 	// ---- 4. the API-level reused-holder case with the proto codec ([7,0,0,3]) ----
 	for _, proto := range protos {
 		var copts []connect.ClientOption
